@@ -4,7 +4,7 @@ import re
 
 from pyvc.api import harness
 from pyvc import spec as SP
-from pyvc.sym import Sym
+from pyvc.sym import Sym, Unsupported
 from spec import iupac
 
 META = {
@@ -62,24 +62,38 @@ def _try(fn, *a, **kw):
         return _Raised(ex)
 
 
+def _walk_parser(e, seen=None, out=None):
+    """every node of a pyparsing expression tree (And/MatchFirst: .exprs; Group/Optional/Forward/...: .expr)"""
+    seen = set() if seen is None else seen
+    out = [] if out is None else out
+    if id(e) in seen:
+        return out
+    seen.add(id(e))
+    out.append(e)
+    for c in (getattr(e, "exprs", None) or []):
+        _walk_parser(c, seen, out)
+    c = getattr(e, "expr", None)
+    if c is not None:
+        _walk_parser(c, seen, out)
+    return out
+
+
 def element_regex_literal():
-    """the regex string handed to Regex(...) for `element`, read from the source AST of the real function"""
-    import inspect
+    """the pattern of the Regex that tokenises element symbols, read from the grammar the real function BUILDS (so: the pattern that runs, however the
+    source spells it: a literal, a module constant, a helper).  Found by role, not by name: the one Regex of the grammar that accepts 'He'."""
+    import re
+    import pyparsing
     from chempy.util import parsing
     fn = parsing._get_formula_parser
     fn = getattr(fn, "__wrapped__", fn)
-    src_file = inspect.getsourcefile(parsing)
-    tree = ast.parse(open(src_file).read())
-    for node in ast.walk(tree):
-        if isinstance(node, ast.FunctionDef) and node.name == "_get_formula_parser":
-            for st in ast.walk(node):
-                if isinstance(st, ast.Assign) and len(st.targets) == 1 and isinstance(st.targets[0], ast.Name) and st.targets[0].id == "element":
-                    call = st.value
-                    while isinstance(call, ast.Call) and not (isinstance(call.func, ast.Name) and call.func.id == "Regex"):
-                        call = call.func.value if isinstance(call.func, ast.Attribute) else None
-                    if call is not None:
-                        return ast.literal_eval(call.args[0])
-    raise RuntimeError("element regex not found in _get_formula_parser")
+    grammar = fn()
+    cands = [e for e in _walk_parser(grammar) if isinstance(e, pyparsing.Regex) and re.fullmatch(e.pattern, "He")]
+    named = [e for e in cands if e.resultsName == "element"]
+    if len(named) == 1:
+        cands = named
+    if len(cands) != 1:
+        raise Unsupported("element regex of the formula grammar not identified (%d candidates)" % len(cands))
+    return cands[0].pattern
 
 
 @harness("C01", "element_regex", functions=[PA + ":_get_formula_parser"], samples=0)
@@ -141,8 +155,37 @@ def _(v):
     v.prove("parsing_uses_periodic_symbols", list(parsing.symbols) == [s for z, s, n, m in iupac.TABLE])
 
 
+def _underlying_action(expr):
+    """the callable behind the first parse action of a pyparsing element (pyparsing wraps it in an arity-trimming closure)"""
+    from pyvc.interp import Closure
+    if not expr.parseAction:
+        return None
+    todo, seen = [expr.parseAction[0]], set()
+    while todo:
+        f = todo.pop(0)
+        if id(f) in seen:
+            continue
+        seen.add(id(f))
+        if isinstance(f, Closure):
+            return f
+        code = getattr(f, "__code__", None)
+        if code is not None and "pyparsing" not in (code.co_filename or ""):
+            return f
+        for c in (getattr(f, "__closure__", None) or ()):
+            try:
+                x = c.cell_contents
+            except ValueError:
+                continue
+            if callable(x):
+                todo.append(x)
+    return None
+
+
 def _parser_closures(v):
-    """interpret the real _get_formula_parser once (concrete run through the interpreter) to obtain its nested functions"""
+    """build the grammar by running the real _get_formula_parser through the interpreter (concrete run) and take its two parse actions BY ROLE: the
+    action of the Group that is one term (multiplies a sub-group out) and the action of the Forward that is the formula (sums by element).  The names
+    under which the source defines them are not part of anything."""
+    import pyparsing
     from chempy.util import parsing
     fn = parsing._get_formula_parser
     inner = getattr(fn, "__wrapped__", None)
@@ -154,10 +197,21 @@ def _parser_closures(v):
     qn = it.qualname_of(inner)
     it.force_interp.add(qn)
     try:
-        it.call(inner, (), {})
+        grammar = it.call(inner, (), {})
     finally:
         it.force_interp.discard(qn)
-    return {k.split(".")[-1]: c for k, c in it.closures.items() if "_get_formula_parser" in k}
+    out = {}
+    for e in _walk_parser(grammar):
+        act = _underlying_action(e)
+        if act is None:
+            continue
+        if isinstance(e, pyparsing.Forward):
+            out.setdefault("sumByElement", act)
+        elif isinstance(e, pyparsing.Group):
+            out.setdefault("multiplyContents", act)
+    if set(out) != {"sumByElement", "multiplyContents"}:
+        raise Unsupported("parse actions of the formula grammar not identified: %s" % sorted(out))
+    return out
 
 
 class _Tok(list):
@@ -354,7 +408,10 @@ def _parts(prefixes, suffixes, tier="quick", tag=None):
                     i = body.index("-"); exp = [body[:i], body[i:]]
                 else:
                     exp = [body, None]
-                v.prove("native_parts", out.returned and out.value == exp + [tuple(dp), tuple(ds[::-1])], detail=repr((f, out.value if out.returned else out.exc)))
+                # four parts (stoichiometry, charge, dropped prefixes, dropped suffixes), compared part by part: whether the private helper hands
+                # them out as a list or as a tuple is nothing its callers (indexing, slicing, len) or the property depend on
+                v.prove("native_parts", out.returned and isinstance(out.value, (list, tuple)) and len(out.value) == 4 and list(out.value[:2]) == exp
+                        and tuple(out.value[2]) == tuple(dp) and tuple(out.value[3]) == tuple(ds[::-1]), detail=repr((f, out.value if out.returned else out.exc)))
             return
         if out.returned:
             stoich, chg, dp, ds = out.value
